@@ -423,6 +423,7 @@ func (prop) Generate(rng *core.Rand, tier string, emit func(string)) {
 		n, ncas, maxSteps = 4000, 6, 20
 	}
 	g := &gen{rng: rng.Fork()}
+	g.strOps(n*2, emit)
 	for i := 0; i < n; i++ {
 		line := g.history(maxSteps)
 		if len(line) > 60000 {
